@@ -380,6 +380,40 @@ def decryptProg (ret : HeaderRet) (B hb : Nat) (reads : List (List Byte)) (body 
     r.1 ++ [.yield, .use o.man, .yield, .use o.man, .use o.mac]
       ++ processSegmentsProg false o.nh (segmentSize + segmentOverhead) body
 
+/-! ### the bytes read past the header: who still reads the header buffer after its Put?
+
+`readHeader` ends with `*in = io.MultiReader(bytes.NewReader(x), *in)`: the bytes the last `Read`
+delivered beyond the third newline are served again by a reader that KEEPS `x`. That reader
+outlives `readHeader` AND `Decrypt`: it is consumed by the first `in.Read` of the goroutine
+`Decrypt` starts (`processSegments`), at a moment nobody controls. `x` is a T1 fact
+(`Generated.C08.surplusRet`): a fresh array filled by `copy` (`.copy`, the source as it is), or
+the sub-slice `buf[lastNewline:n]` of the pooled buffer itself (`.alias`). -/
+
+/-- the slice the pushed-back reader reads from (`hb` = handle of the header buffer; the surplus
+copy of `readHeaderProg` lives in the handle after it) -/
+def surplusSl (sur : RetKind) (hb : Nat) (o : HdrOut) : Sl :=
+  match sur with
+  | .alias => ⟨hb, o.hdrLen, o.extra⟩
+  | _ => ⟨hb + 1, 0, o.extra⟩
+
+/-- `processSegments` with what its first `in.Read` goes through made explicit: `pre` runs after
+its own `Get` and before the segment loop -/
+def processSegmentsProgS (enc : Bool) (hb S : Nat) (pre : List Instr) (data : List Byte) : List Instr :=
+  .get :: (pre ++ psLoop enc hb S (data.length + 1) none data ++ [.put hb])
+
+/-- `Decrypt` including the life of the pushed-back reader: as `decryptProg`, then `Decrypt`
+returns (`yield`: the goroutine runs whenever the scheduler says), the goroutine Gets its buffer
+and its first `in.Read` reads the surplus bytes through `surplusSl` (logged as every read is);
+the values that then land in the segment buffer are the thread's own input, as in `psLoop`. -/
+def decryptProgS (sur : RetKind) (ret : HeaderRet) (B hb : Nat) (reads : List (List Byte)) (body : List Byte) : List Instr :=
+  let r := readHeaderProg ret B hb reads
+  match r.2 with
+  | none => r.1
+  | some o =>
+    r.1 ++ [.yield, .use o.man, .yield, .use o.man, .use o.mac, .yield]
+      ++ processSegmentsProgS false o.nh (segmentSize + segmentOverhead)
+           (if o.extra = 0 then [] else [.use (surplusSl sur hb o)]) body
+
 /-- `Encrypt`: (header is built on the caller's stack) then processSegments over the plaintext -/
 def encryptProg (hb : Nat) (plain : List Byte) : List Instr :=
   processSegmentsProg true hb segmentSize plain
@@ -438,6 +472,43 @@ def witnessProgs (ret : HeaderRet) : Nat → List Instr
   | _ => []
 
 def witnessFinal (ret : HeaderRet) : State := runSched (init (witnessProgs ret)) (witnessSched ret)
+
+/-! ### several streams opened before any is read -/
+
+/-- a Decrypt thread over a whole document delivered in `Read`s of at most `k` bytes (`0` = ONE
+`Read` delivers everything up to the segment size: a `bytes.Reader`, a file) -/
+def progOfS (sur : RetKind) (ret : HeaderRet) (k : Nat) (doc : List Byte) : List Instr :=
+  decryptProgS sur ret segmentSize 0 (chunksOf (doc.length + 1) k (doc.take segmentSize)) (bodyOf 0 doc)
+
+/-- number of instructions of `progOfS` up to and including the return of `Decrypt` (the `yield`
+in front of the goroutine's part); the whole program when the header is refused -/
+def openLen (ret : HeaderRet) (k : Nat) (doc : List Byte) : Nat :=
+  let r := readHeaderProg ret segmentSize 0 (chunksOf (doc.length + 1) k (doc.take segmentSize))
+  match r.2 with
+  | none => r.1.length
+  | some _ => r.1.length + 6
+
+/-- streams = (read chunk, document) -/
+def openProgs (sur : RetKind) (ret : HeaderRet) (docs : List (Nat × List Byte)) : Nat → List Instr :=
+  fun t => match docs[t]? with
+    | some d => progOfS sur ret d.1 d.2
+    | none => []
+
+/-- run thread `t` for `k` steps; at a `get` the pool hands out the buffer Put last, if any (the
+per-P slot of `sync.Pool` under GOMAXPROCS=1) -/
+def runLifo (s : State) (t : Nat) : Nat → State
+  | 0 => s
+  | k + 1 =>
+    match step s t s.pool.head? with
+    | some s' => runLifo s' t k
+    | none => s
+
+/-- "open all, then drain in `order`": every stream runs up to the return of its `Decrypt`, in
+index order; then the goroutines run to their end in the given order -/
+def openAllThenDrain (sur : RetKind) (ret : HeaderRet) (docs : List (Nat × List Byte)) (order : List Nat) : State :=
+  let s0 := init (openProgs sur ret docs)
+  let s1 := (List.range docs.length).foldl (fun s t => runLifo s t (openLen ret (docs.getD t (0, [])).1 (docs.getD t (0, [])).2)) s0
+  order.foldl (fun s t => runLifo s t ((openProgs sur ret docs t).length + 1)) s1
 
 /-! ## `byteslicepool` -/
 
